@@ -473,6 +473,42 @@ class Body:
                     work.append(p)
         return loop
 
+    def field_loads(self, owner_suffix, field):
+        """Sites whose rvalue / call arguments / switch operand read `<owner>.field`."""
+        out = []
+
+        def has(pl):
+            return pl is not None and any(isinstance(e, dict) and e.get("n") == field and str(e.get("o", "")).endswith(owner_suffix) for e in pl.get("p", []))
+
+        def ops_of(node):
+            if node is None:
+                return
+            if isinstance(node, dict):
+                if "place" in node and isinstance(node["place"], dict) and node.get("k") in ("copy", "move", "ref", "rawptr", "discr", "len"):
+                    yield node["place"]
+                for k, v in node.items():
+                    if k == "place" and node.get("k") not in ("copy", "move", "ref", "rawptr", "discr", "len"):
+                        continue
+                    if isinstance(v, (dict, list)):
+                        yield from ops_of(v)
+            elif isinstance(node, list):
+                for x in node:
+                    yield from ops_of(x)
+        for bb in sorted(self.live_blocks):
+            blk = self.blocks[bb]
+            for i, st in enumerate(blk["stmts"]):
+                if st["k"] == "assign" and any(has(pl) for pl in ops_of(st["rv"])):
+                    out.append(Site(self, bb, i))
+            t = blk["term"]
+            srcs = []
+            if t["k"] == "call":
+                srcs = t["args"]
+            elif t["k"] == "switch":
+                srcs = [t["discr"]]
+            if any(has(pl) for pl in ops_of(srcs)):
+                out.append(Site(self, bb, "term"))
+        return out
+
     def enclosing_loop(self, bb, max_up=24):
         """(header, loop) of the innermost natural loop that contains bb, or (None, None)."""
         hb = bb
